@@ -1,9 +1,10 @@
 /-
   FindSoundWrapped.lean — atoms stored outside the unit cell (C01; also used by C02/C03/C08):
-  `Mat3.intoCell` (Model/Find.lean: `positions − floor(positions · cell⁻¹) · cell`) is a translation by an INTEGER lattice
-  vector; for a cell of non-zero volume it is `Mat3.wrap` (Model/Lattice.lean, the wrap of the replacement code), lands
-  inside the cell and is idempotent; hence `findW (wrapped S) = findW S`, and `findW S = find S` when every atom of `S` is
-  inside the cell.
+  `Mat3.intoCell` (Model/Find.lean: `positions − floor(positions · cell⁻¹ + 1e-9) · cell`) is a translation by an INTEGER
+  lattice vector; for a cell of non-zero volume it lands in the cell up to the face tolerance (fractional coordinates in
+  `[−1e-9, 1 − 1e-9)`) and is idempotent, hence `findW (wrapped S) = findW S`; `findW S = find S` when no atom of `S`
+  is a whole cell away. For an atom that is not within `1e-9` below a cell face (`OffFaces`) it is exactly `Mat3.wrap`
+  (Model/Lattice.lean, the wrap of the replacement code) and lands in `[0, 1)³`.
 -/
 import MofunModel.Model.Find
 import MofunModel.Proofs.WrapLemmas
@@ -20,26 +21,64 @@ theorem intoCell_eq_add (m : Mat3) (v : Vec3) :
   push_cast
   refine ⟨by ring, by ring, by ring⟩
 
-/-- for a cell of non-zero volume `intoCell` is the wrap of Model/Lattice.lean (`(frac mod 1) · cell`) -/
-theorem intoCell_eq_wrap (m : Mat3) (v : Vec3) (hd : m.det ≠ 0) : m.intoCell v = m.wrap v := by
-  rw [intoCell_eq_add, wrap_eq_shift m v hd]
-  rfl
-
-theorem intoCell_inCell (m : Mat3) (v : Vec3) (hd : m.det ≠ 0) : InCell m (m.intoCell v) := by
-  rw [intoCell_eq_wrap m v hd]; exact wrap_inCell m v hd
-
-/-- an atom inside the cell is not moved at all (no hypothesis on the cell: its floors are zero) -/
+/-- an atom that is no whole cell away is not moved at all (no hypothesis on the cell) -/
 theorem intoCell_of_cellsAway_zero (m : Mat3) (v : Vec3) (h : m.cellsAway v = (0, 0, 0)) : m.intoCell v = v := by
   simp only [Mat3.intoCell, h, Mat3.lattice, Vec3.sub, Vec3.add, Vec3.smul]
   cases v; simp
 
-theorem cellsAway_of_inCell (m : Mat3) (v : Vec3) (h : InCell m v) : m.cellsAway v = (0, 0, 0) := by
+/-- inside the cell up to the face tolerance: fractional coordinates in `[−1e-9, 1 − 1e-9)` -/
+def InCellEps (m : Mat3) (v : Vec3) : Prop :=
+  let f := m.frac v
+  (-faceEps ≤ f.x ∧ f.x < 1 - faceEps) ∧ (-faceEps ≤ f.y ∧ f.y < 1 - faceEps) ∧ (-faceEps ≤ f.z ∧ f.z < 1 - faceEps)
+
+theorem floor_shift_range (x : Rat) :
+    -faceEps ≤ x - ((x + faceEps).floor : Rat) ∧ x - ((x + faceEps).floor : Rat) < 1 - faceEps := by
+  have h1 := Rat.floor_le (x + faceEps)
+  have h2 := Rat.lt_floor_add_one (x + faceEps)
+  push_cast at h2
+  constructor <;> linarith
+
+theorem frac_intoCell (m : Mat3) (v : Vec3) (hd : m.det ≠ 0) :
+    m.frac (m.intoCell v) = ⟨(m.frac v).x - (((m.frac v).x + faceEps).floor : Rat),
+      (m.frac v).y - (((m.frac v).y + faceEps).floor : Rat), (m.frac v).z - (((m.frac v).z + faceEps).floor : Rat)⟩ := by
+  rw [intoCell_eq_add, frac_shift m v _ _ _ hd]
+  simp only [Mat3.cellsAway, Vec3.mk.injEq]
+  push_cast
+  refine ⟨by ring, by ring, by ring⟩
+
+theorem intoCell_inCellEps (m : Mat3) (v : Vec3) (hd : m.det ≠ 0) : InCellEps m (m.intoCell v) := by
+  unfold InCellEps
+  rw [frac_intoCell m v hd]
+  exact ⟨floor_shift_range _, floor_shift_range _, floor_shift_range _⟩
+
+theorem cellsAway_of_inCellEps (m : Mat3) (v : Vec3) (h : InCellEps m v) : m.cellsAway v = (0, 0, 0) := by
   obtain ⟨⟨hx0, hx1⟩, ⟨hy0, hy1⟩, ⟨hz0, hz1⟩⟩ := h
   simp only [Mat3.cellsAway]
-  rw [floor_eq_zero_of_range _ hx0 hx1, floor_eq_zero_of_range _ hy0 hy1, floor_eq_zero_of_range _ hz0 hz1]
+  rw [floor_eq_zero_of_range _ (by linarith) (by linarith), floor_eq_zero_of_range _ (by linarith) (by linarith),
+    floor_eq_zero_of_range _ (by linarith) (by linarith)]
 
 theorem intoCell_idem (m : Mat3) (v : Vec3) (hd : m.det ≠ 0) : m.intoCell (m.intoCell v) = m.intoCell v :=
-  intoCell_of_cellsAway_zero m _ (cellsAway_of_inCell m _ (intoCell_inCell m v hd))
+  intoCell_of_cellsAway_zero m _ (cellsAway_of_inCellEps m _ (intoCell_inCellEps m v hd))
+
+/-! ### atoms not within `1e-9` below a face: `intoCell` is the exact wrap -/
+
+/-- the face tolerance does not change the cell count of `v` -/
+def OffFaces (m : Mat3) (v : Vec3) : Prop :=
+  m.cellsAway v = ((m.frac v).x.floor, (m.frac v).y.floor, (m.frac v).z.floor)
+
+instance (m : Mat3) (v : Vec3) : Decidable (OffFaces m v) := by unfold OffFaces; infer_instance
+
+theorem intoCell_eq_wrap (m : Mat3) (v : Vec3) (hd : m.det ≠ 0) (ho : OffFaces m v) : m.intoCell v = m.wrap v := by
+  rw [intoCell_eq_add, wrap_eq_shift m v hd, ho]
+  rfl
+
+theorem intoCell_inCell (m : Mat3) (v : Vec3) (hd : m.det ≠ 0) (ho : OffFaces m v) : InCell m (m.intoCell v) := by
+  rw [intoCell_eq_wrap m v hd ho]; exact wrap_inCell m v hd
+
+/-- an atom inside the cell (`frac ∈ [0,1)³`) that is off the faces is not moved -/
+theorem cellsAway_of_inCell (m : Mat3) (v : Vec3) (h : InCell m v) (ho : OffFaces m v) : m.cellsAway v = (0, 0, 0) := by
+  obtain ⟨⟨hx0, hx1⟩, ⟨hy0, hy1⟩, ⟨hz0, hz1⟩⟩ := h
+  rw [ho, floor_eq_zero_of_range _ hx0 hx1, floor_eq_zero_of_range _ hy0 hy1, floor_eq_zero_of_range _ hz0 hz1]
 
 /-! ### the wrapped structure -/
 
@@ -50,7 +89,7 @@ theorem wrapped_getD (inp : FindInput) (i : Nat) (h : i < inp.pos.length) :
     inp.wrapped.pos.getD i Vec3.zero = inp.cell.intoCell (inp.pos.getD i Vec3.zero) := by
   simp [FindInput.wrapped, List.getD_eq_getElem?_getD, List.getElem?_map, List.getElem?_eq_getElem h]
 
-/-- wrapping a structure whose atoms are already inside the cell changes nothing -/
+/-- wrapping a structure none of whose atoms is a whole cell away changes nothing -/
 theorem wrapped_of_inside (inp : FindInput) (h : ∀ p ∈ inp.pos, inp.cell.cellsAway p = (0, 0, 0)) : inp.wrapped = inp := by
   have : inp.pos.map inp.cell.intoCell = inp.pos := by
     conv => rhs; rw [← List.map_id inp.pos]
@@ -66,14 +105,22 @@ theorem wrapped_wrapped (inp : FindInput) (hd : inp.cell.det ≠ 0) : inp.wrappe
   intro p hp
   simp only [FindInput.wrapped, List.mem_map] at hp
   obtain ⟨v, -, rfl⟩ := hp
-  exact cellsAway_of_inCell _ _ (intoCell_inCell inp.cell v hd)
+  exact cellsAway_of_inCellEps _ _ (intoCell_inCellEps inp.cell v hd)
 
-/-- every atom of the wrapped structure is inside the cell -/
-theorem wrapped_inCell (inp : FindInput) (hd : inp.cell.det ≠ 0) : ∀ p ∈ inp.wrapped.pos, InCell inp.cell p := by
+/-- every atom of the wrapped structure is inside the cell up to the face tolerance -/
+theorem wrapped_inCellEps (inp : FindInput) (hd : inp.cell.det ≠ 0) : ∀ p ∈ inp.wrapped.pos, InCellEps inp.cell p := by
   intro p hp
   simp only [FindInput.wrapped, List.mem_map] at hp
   obtain ⟨v, -, rfl⟩ := hp
-  exact intoCell_inCell inp.cell v hd
+  exact intoCell_inCellEps inp.cell v hd
+
+/-- … and exactly inside (`frac ∈ [0,1)³`) when no stored atom is within `1e-9` below a face -/
+theorem wrapped_inCell (inp : FindInput) (hd : inp.cell.det ≠ 0) (ho : ∀ v ∈ inp.pos, OffFaces inp.cell v) :
+    ∀ p ∈ inp.wrapped.pos, InCell inp.cell p := by
+  intro p hp
+  simp only [FindInput.wrapped, List.mem_map] at hp
+  obtain ⟨v, hv, rfl⟩ := hp
+  exact intoCell_inCell inp.cell v hd (ho v hv)
 
 /-- **find (wrap S) = find S**: the search does not see whether the atoms were stored wrapped or not -/
 theorem findW_wrapped (inp : FindInput) (ax1 : Nat) (oracle : Nat → Nat → Quat) (choose : Nat → List Nat → Nat)
@@ -84,7 +131,8 @@ theorem findGroupsW_wrapped (inp : FindInput) (ax1 : Nat) (oracle : Nat → Nat 
     findGroupsW inp.wrapped ax1 oracle = findGroupsW inp ax1 oracle := by
   unfold findGroupsW; rw [wrapped_wrapped inp hd]
 
-/-- on a structure whose atoms are inside the cell `find_pattern_in_structure` is the search on the stored positions -/
+/-- on a structure none of whose atoms is a whole cell away `find_pattern_in_structure` is the search on the stored
+    positions -/
 theorem findW_of_inside (inp : FindInput) (ax1 : Nat) (oracle : Nat → Nat → Quat) (choose : Nat → List Nat → Nat)
     (h : ∀ p ∈ inp.pos, inp.cell.cellsAway p = (0, 0, 0)) : findW inp ax1 oracle choose = find inp ax1 oracle choose := by
   unfold findW; rw [wrapped_of_inside inp h]
